@@ -239,6 +239,17 @@ Definition open_after (flag : bool) (c : conn) (e : event) : bool :=
 Definition open_enrolled (evs : list event) (c : conn) : bool :=
   fold_left (fun f e => open_after f c e) evs false.
 
+(* a connection is reported closed once; "open" in the strict sense also excludes a connection
+   whose closure had been reported before it was enrolled.  The two notions coincide on histories
+   in which IsClosed is never answered false after the notification (w3) -- the order libp2p
+   guarantees when IsClosed is evaluated inside the critical section of addPeer. *)
+Definition reported_closed (evs : list event) (c : conn) : bool :=
+  existsb (fun e => match e with ConnClosed c' => conn_eqb c c' | _ => false end) evs.
+Definition truly_open (evs : list event) (c : conn) : bool :=
+  open_enrolled evs c && negb (reported_closed evs c).
+Definition w3 (evs : list event) : Prop :=
+  forall pre post c pe, evs = pre ++ Enrol c pe false :: post -> reported_closed pre c = false.
+
 Definition registered (r : reg) (p : pid) : bool := has p (overlays r).
 Definition ctx_cancelled (r : reg) (s : sid) : bool :=
   match get s (ctxs r) with Some b => b | None => false end.
